@@ -27,11 +27,12 @@ Laws(e) ==
        <<"matches",      S(e.matchesab) = S(e.isab)>>,
        <<"monotone",     S(e.ab) \subseteq S(e.abc)>>,
        <<"forgiving",    S(e.fg1) = S(e.isb) /\ S(e.fg2) = S(e.isb) /\ S(e.fg3) = S(e.isab)>>,
+       <<"name-spelling", S(e.nota_e) = S(e.nota) /\ S(e.isab_e) = S(e.isab) /\ S(e.whereab_e) = S(e.isab)>>,
        <<"list-spelling", S(e.isab_c) = S(e.isab) /\ S(e.ab_c) = S(e.ab) /\ S(e.notab_c) = S(e.notab)>>,
        <<"any-is-union", S(e.anyisab) = S(e.anyisa) \cup S(e.anyisb) /\ S(e.anyisba) = S(e.anyisab)>>,
        <<"any-not",      S(e.anynota) = S(e.anyuniv) \ S(e.anyisa)>>,
        <<"any-not-list", S(e.anynotab) = S(e.anyuniv) \ S(e.anyisab)>>,
-       <<"no-error",     \A f \in {e.ab, e.isab, e.isa, e.isb, e.nota, e.notab, e.whereab, e.matchesab, e.xisa, e.abc, e.fg1, e.fg2, e.fg3, e.anyisab, e.anyisa, e.anyisb, e.anynota, e.anynotab, e.anyisba, e.isab_c, e.ab_c, e.notab_c} : f # <<-1>> >> >>
+       <<"no-error",     \A f \in {e.ab, e.isab, e.isa, e.isb, e.nota, e.notab, e.whereab, e.matchesab, e.xisa, e.abc, e.fg1, e.fg2, e.fg3, e.anyisab, e.anyisa, e.anyisb, e.anynota, e.anynotab, e.anyisba, e.isab_c, e.ab_c, e.notab_c, e.nota_e, e.isab_e, e.whereab_e} : f # <<-1>> >> >>
 Failed(e) == {n \in 1..Len(Laws(e)) : ~Laws(e)[n][2]}
 
 Init == l = 0 /\ row = [k \in {} |-> {}]
